@@ -95,6 +95,11 @@ def judge_chain(ops_in: list[Any], result: Any, scalars: list[float], tags: list
             LOG.violation('C07', mon, 'residue/identity', 'an identity factor remains in the reduced chain', **ctx)
         if any(name(o) == 'CompositionOperator' for o in ops):
             pass  # nested compositions built through the constructor are outside this check
+    for o in ops:
+        if name(o) == 'BlockDiagonalOperator' and all(
+                name(b) == 'IdentityOperator' for b in jax.tree.leaves(o.blocks, is_leaf=ISOP)):
+            LOG.violation('C07', mon, 'residue/identity-block-diagonal', 'a block-diagonal operator made of identities only remains', **ctx)
+            break
     hs = [i for i, o in enumerate(ops) if name(o) == 'HomothetyOperator']
     n_in = sum(1 for o in ops_in if name(o) == 'HomothetyOperator')
     if len(hs) > 1:
